@@ -219,6 +219,26 @@ func (c *collector) accumulator(fn *ssa.Function, v ssa.Value, al *ssa.Alloc, fv
 		if ap == nil {
 			return true, "starts from a complete slice"
 		}
+		// append(x, coll...) with coll complete: the whole collection is added in one go
+		if len(ap.Call.Args) == 2 {
+			if _, isLit := stripConv(ap.Call.Args[1]).(*ssa.Slice); !isLit {
+				c.depth++
+				ok, w := c.containsAll(ap.Call.Args[1])
+				c.depth--
+				if ok {
+					// …provided no later step can drop or overwrite elements again: not inside a loop
+					inLoop := false
+					for _, cand := range loops {
+						if cand.Body[ap.Block()] {
+							inLoop = true
+						}
+					}
+					if !inLoop {
+						return true, "appends " + w
+					}
+				}
+			}
+		}
 		// innermost loop containing the append
 		var l *natLoop
 		for _, cand := range loops {
